@@ -18,8 +18,8 @@ RULE = (
     "get_kd_tree in every configuration plus a probe query, chunk, isel, subset.bounding_circle, a constant-latitude "
     "cross-section, get_dual. Each operation's result is compared at once with the result of the same call on a grid freshly "
     "built from the same source in the same process (the property's own reference); exported datasets may only add derived "
-    "variables, each equal to what the fresh grid derives; the module-level dictionaries of uxarray.conventions and "
-    "uxarray.constants are deep-compared with their import-time snapshot after every case. Half of the shards run with "
+    "variables, each equal to what the fresh grid derives; every module-level value / container of the uxarray package (private names included) "
+    "is deep-compared with their import-time snapshot after every case. Half of the shards run with "
     "NUMBA_DISABLE_JIT=1, pairwise on the same generated cases, and the recorded results of paired shards are compared. "
     "Non-trivial = an operation is judged after at least two other operations, or two grids are touched; distinct by case hash."
 )
@@ -163,18 +163,19 @@ _SNAP = None
 
 
 def _snap_modules():
-    import uxarray.constants as C
-    import uxarray.conventions.descriptors as D
-    import uxarray.conventions.ugrid as U
+    """Every plain value / container bound at module level anywhere in the uxarray package (private names too:
+    templates and caches shared by all grids live there); dunder attributes (warning registries etc.) are skipped."""
+    import sys
 
     out = {}
-    for mod in (U, D, C):
-        for name in dir(mod):
-            if name.startswith("_"):
+    for mname, mod in sorted(sys.modules.items()):
+        if mod is None or not (mname == "uxarray" or mname.startswith("uxarray.")):
+            continue
+        for name, v in sorted(vars(mod).items()):
+            if name.startswith("__"):
                 continue
-            v = getattr(mod, name)
             if isinstance(v, (dict, list, tuple, str, int, float, set, frozenset)) or isinstance(v, np.generic):
-                out[f"{mod.__name__}.{name}"] = _freeze(v)
+                out[f"{mname}.{name}"] = _freeze(v)
     return out
 
 
@@ -522,8 +523,11 @@ def run_case(case, ctx):
         if now.get(k) != v:
             fails.append(Failure("module_globals_unchanged", "uxarray-module-globals", "changed", f"{k} differs from its import-time value after ops {[o['op'] for o in case['ops']]}"))
             break
+    # (modules imported lazily after the snapshot bring their names with them: only a new name in a module that
+    # had already been loaded counts)
+    known_mods = {k.rsplit(".", 1)[0] for k in _SNAP}
     for k in now:
-        if k not in _SNAP:
+        if k not in _SNAP and k.rsplit(".", 1)[0] in known_mods:
             fails.append(Failure("module_globals_unchanged", "uxarray-module-globals", "added", f"{k} appeared"))
             break
     recs = ctx.extra.setdefault("paired_records", {})
